@@ -191,12 +191,16 @@ def run(ctx):
     ctx.trusted.append("gen/nv_blocks.py: runs the real NVSubroutineTranspiler on single-gate subroutines (7 gates; "
                        "cnot/cphase/mov x EC/CE/CC x carbons 1..3 x 4 register choices x debug on/off), abstracts registers "
                        "to roles, checks block independence of the choice, records the appended no-op")
+    ctx.trusted.append("gen/nv_decomp.py (C07's translator): emitted sequences with registers resolved to wires (electron = 0)")
     ctx.trusted.append("harness/nv_impl.py, nv_gen.py: tuple <-> instruction objects, canonical integer encoding, "
                        "generator; harness/sdk_pipeline.py RecExecutor/SvExecutor (operators from mnemonic definitions)")
     ctx.assume += [
-        "blocks_sound (each regenerated block equals its gate as an operator up to phase, borrowed electron restored) "
-        "is a HYPOTHESIS of C08's quantum half; it is property C07's theorem.  The oracle evaluates it numerically per "
-        "row on every run and draws programs only from rows that hold (rows failing are listed under notes).",
+        "block soundness is no longer a hypothesis: C08_blocks_sound derives it from C07's regenerated rows "
+        "(Gen_NvDecomp, re-decided exactly in K32 by vm_compute) and the computed agreement of the two tables, for every "
+        "state space with a functorial action of exact matrices on qubit lists (laws: composition, identity, global "
+        "phase, locality; rotation operators exact on representable angles and a function of the angle).  That state "
+        "vectors with the standard operator action satisfy these laws is linear algebra, not formalised.  The oracle "
+        "still evaluates every row numerically and draws programs only from rows that hold.",
         "qubit allocation is not modelled: carbon-carbon blocks borrow virtual qubit 0, which the oracle programs keep "
         "allocated (NV: the electron always exists)",
         "vanilla `mov` has no operator in the executor; its meaning is C07's mov_transfers; C08 covers mov in the "
@@ -215,6 +219,12 @@ def run(ctx):
         return ctx.finish()
     table_ok = ok
     if table_ok:
+        # C07's table (regenerated here as well): its rows discharge block soundness
+        ok7, err7 = ctx.gen("nv_decomp.py", "Gen_NvDecomp.v", "--json", os.path.join(ctx.build, "rows.json"))
+        ctx.gen_obligation("translator nv_decomp.py (C07's table) understands the transpiler output", ok7, err7.strip()[-300:])
+        if ok7:
+            r7 = ctx.coqc("Gen_NvDecomp.v")
+            ctx.gen_obligation("Gen_NvDecomp.v type-checks", r7.ok, r7.err[-300:])
         ctx.props("C08")
         import nv_blocks
 
@@ -281,7 +291,9 @@ def run(ctx):
         rmeta.append(dict(prog=prog, script=script, nv=nv, status=res["status"]))
 
     for k in range(n_oracle):
-        prog, meta = nv_gen.gen_program(rng, dict(g1=g1_ok, g2=g2_ok))
+        prog, meta = nv_gen.gen_program(rng, dict(g1=g1_ok, g2=g2_ok, lreg=(k % 3 == 1)))
+        if meta.get("lreg"):
+            stats["load_add_only_register"] = stats.get("load_add_only_register", 0) + 1
         if not nv_gen.sdk_shaped(prog):
             stats["not_sdk_shaped"] = stats.get("not_sdk_shaped", 0) + 1
             continue
@@ -310,7 +322,8 @@ def run(ctx):
         add_tie(prog, meta, False, False)
     for k in range(n_tie):
         hw = rng.random() < 0.35
-        prog, meta = tie_variants(rng, impl, dict(g2=["cnot", "cphase", "mov"], load=rng.random() < 0.3, hw_safe=hw and rng.random() < 0.7))
+        prog, meta = tie_variants(rng, impl, dict(g2=["cnot", "cphase", "mov"], load=rng.random() < 0.3,
+                                                  lreg=rng.random() < 0.3, hw_safe=hw and rng.random() < 0.7))
         feat(prog)
         res = add_tie(prog, meta, rng.random() < 0.5, hw)
         ctx.note_case((str(prog), "tie", hw))
@@ -401,7 +414,7 @@ def search(ctx, impl, g1_ok, g2_ok, suspects):
             if [v for v in ctx.violations if v["key"] is None]:
                 return
     for _ in range(400):
-        prog, meta = nv_gen.gen_program(rng, dict(g1=g1_ok, g2=g2_ok))
+        prog, meta = nv_gen.gen_program(rng, dict(g1=g1_ok, g2=g2_ok, lreg=rng.random() < 0.5))
         if not nv_gen.sdk_shaped(prog):
             continue
         script = [rng.randint(0, 1) for _ in range(meta["script_len"] * 4 + 2)]
